@@ -186,7 +186,7 @@ def explore(depth, expand, runner, on_transition, alphabet=None, seeds=None, cfg
         # every seed history is expanded, also when another seed already reached the same (dump, storage kind)
         frontier.append((s, (), d, sto))
     expanded_hist += frontier
-    per_level = [{"level": 0, "new_states": len(frontier), "expanded": len(frontier), "transitions": 0}]
+    per_level = [{"level": 0, "new_states": len(known), "expanded": len(frontier), "transitions": 0}]
     for lvl in range(depth):
         elig = None if lvl >= depth - 1 else set(expand[lvl])
         cand = {}       # key -> (s, h)   first eligible history in enumeration order
